@@ -1,0 +1,11 @@
+//go:build verif
+
+package common
+
+import "github.com/privacybydesign/gabi/big"
+
+// VerifSumFourSquaresSpecial exposes the randomised inner routine of SumFourSquares
+// (verification hook, build tag "verif").
+func VerifSumFourSquaresSpecial(n *big.Int) (*big.Int, *big.Int, *big.Int, *big.Int) {
+	return sumFourSquaresSpecial(n)
+}
